@@ -67,6 +67,9 @@ pub enum TState {
     Runnable,
     Blocked,
     Finished,
+    /// Holds no baton any more: it blocked inside the code under test on a native lock whose
+    /// owner is parked (see `try_rescue`); becomes Runnable again at its next scheduler entry.
+    NativeBlocked,
 }
 
 #[derive(Clone, Debug)]
@@ -93,8 +96,8 @@ pub struct Inner<M> {
     pub chosen: Vec<u8>,
     pub switches: u64,
     pub trace_hash: u64,
-    pub site_counts: [u64; 16],
-    pub site_switches: [u64; 16],
+    pub site_counts: [u64; 32],
+    pub site_switches: [u64; 32],
     /// mailboxes[to][from]
     pub mailboxes: Vec<Vec<VecDeque<M>>>,
     /// Which sender a blocked thread is waiting for.
@@ -108,7 +111,16 @@ pub struct Inner<M> {
     pub exit_turn: Option<usize>,
     pub last_progress: std::time::Instant,
     pub last_site: Option<(usize, Site)>,
+    /// OS thread ids of the simulated threads (for the native-block probe).
+    pub os_tids: Vec<i32>,
+    /// Step at which each thread was last pre-empted (handed the baton over while runnable).
+    pub preempted_at: Vec<u64>,
+    pub rescues: u64,
 }
+
+/// `current` when nobody holds the baton (everybody else waits and a natively blocked thread is
+/// expected to come back).
+pub const NOBODY: usize = usize::MAX;
 
 pub struct Coop<M> {
     pub inner: Mutex<Inner<M>>,
@@ -135,8 +147,8 @@ impl<M> Coop<M> {
                 chosen: Vec::new(),
                 switches: 0,
                 trace_hash: 0xcbf2_9ce4_8422_2325,
-                site_counts: [0; 16],
-                site_switches: [0; 16],
+                site_counts: [0; 32],
+                site_switches: [0; 32],
                 mailboxes: (0..n).map(|_| (0..n).map(|_| VecDeque::new()).collect()).collect(),
                 waiting_for: vec![None; n],
                 abort: false,
@@ -147,6 +159,9 @@ impl<M> Coop<M> {
                 exit_turn: None,
                 last_progress: std::time::Instant::now(),
                 last_site: None,
+                os_tids: vec![0; n],
+                preempted_at: vec![0; n],
+                rescues: 0,
             }),
             cvs: (0..n).map(|_| Condvar::new()).collect(),
             main_cv: Condvar::new(),
@@ -209,10 +224,57 @@ impl<M> Coop<M> {
     fn hand_over<'a>(&'a self, me: usize, next: usize, mut g: std::sync::MutexGuard<'a, Inner<M>>) -> std::sync::MutexGuard<'a, Inner<M>> {
         if next != me {
             g.switches += 1;
+            g.preempted_at[me] = g.steps;
             g.current = next;
             self.cvs[next].notify_one();
         }
         g
+    }
+
+    /// A thread that was rescued from a native block re-enters the scheduler without the baton:
+    /// it becomes runnable again and waits for its turn.
+    fn reenter<'a>(&'a self, me: usize, mut g: std::sync::MutexGuard<'a, Inner<M>>) -> std::sync::MutexGuard<'a, Inner<M>> {
+        if g.current != me && !g.abort {
+            if g.states[me] == TState::NativeBlocked {
+                g.states[me] = TState::Runnable;
+            }
+            if g.current == NOBODY || g.states[g.current] != TState::Runnable {
+                // Nobody can hand the baton over any more: take it.
+                g.current = me;
+            } else {
+                g = self.wait_turn(me, g);
+            }
+        }
+        g
+    }
+
+    /// Called by the watchdog when no scheduling point was passed for a while. If the baton holder
+    /// sleeps in the kernel (it blocked on a lock of the code under test whose owner is parked at a
+    /// scheduling point), the baton is taken from it and given to the most recently pre-empted
+    /// runnable thread, which will release the lock on its way to its next scheduling point. The
+    /// decision depends only on simulator state, not on timing. Returns whether a rescue happened.
+    pub fn try_rescue(&self) -> bool {
+        let mut g = self.inner.lock().unwrap_or_else(|e| e.into_inner());
+        if g.abort {
+            return false;
+        }
+        let cur = g.current;
+        if cur == NOBODY || g.states[cur] != TState::Runnable {
+            return false;
+        }
+        let tid = g.os_tids[cur];
+        if tid == 0 || !thread_sleeps(tid) {
+            return false;
+        }
+        let cand = (0..g.states.len()).filter(|t| *t != cur && g.states[*t] == TState::Runnable).max_by_key(|t| (g.preempted_at[*t], usize::MAX - *t));
+        let Some(next) = cand else { return false };
+        g.states[cur] = TState::NativeBlocked;
+        g.rescues += 1;
+        g.last_progress = std::time::Instant::now();
+        g.current = next;
+        g.chosen.push(next as u8);
+        self.cvs[next].notify_one();
+        true
     }
 
     /// Let the policy choose which thread runs first.
@@ -225,12 +287,17 @@ impl<M> Coop<M> {
 
     /// First thing a simulated thread does.
     pub fn start(&self, me: usize) {
-        let g = self.inner.lock().unwrap_or_else(|e| e.into_inner());
+        let mut g = self.inner.lock().unwrap_or_else(|e| e.into_inner());
+        g.os_tids[me] = unsafe { libc::syscall(libc::SYS_gettid) } as i32;
         drop(self.wait_turn(me, g));
     }
 
     pub fn yield_point(&self, me: usize, site: Site) {
-        let mut g = self.inner.lock().unwrap_or_else(|e| e.into_inner());
+        let g = self.inner.lock().unwrap_or_else(|e| e.into_inner());
+        if g.abort {
+            return;
+        }
+        let mut g = self.reenter(me, g);
         if g.abort {
             return;
         }
@@ -238,11 +305,11 @@ impl<M> Coop<M> {
         g.last_progress = std::time::Instant::now();
         g.last_site = Some((me, site));
         let s = site as usize;
-        g.site_counts[s % 16] += 1;
+        g.site_counts[s % 32] += 1;
         g.trace_hash = crate::rng::mix(g.trace_hash, ((me as u64) << 8) | s as u64);
         if let Some(next) = Self::choose(&mut g, Some(me)) {
             if next != me {
-                g.site_switches[s % 16] += 1;
+                g.site_switches[s % 32] += 1;
                 let g = self.hand_over(me, next, g);
                 drop(self.wait_turn(me, g));
             }
@@ -251,7 +318,8 @@ impl<M> Coop<M> {
 
     pub fn send(&self, me: usize, to: usize, item: M) {
         {
-            let mut g = self.inner.lock().unwrap_or_else(|e| e.into_inner());
+            let g = self.inner.lock().unwrap_or_else(|e| e.into_inner());
+            let mut g = self.reenter(me, g);
             g.mailboxes[to][me].push_back(item);
             if g.states[to] == TState::Blocked && g.waiting_for[to] == Some(me) {
                 g.states[to] = TState::Runnable;
@@ -264,7 +332,8 @@ impl<M> Coop<M> {
     /// Receive from the own mailbox; `None` only if the simulation was aborted (deadlock).
     pub fn recv(&self, me: usize, from: usize) -> Option<M> {
         loop {
-            let mut g = self.inner.lock().unwrap_or_else(|e| e.into_inner());
+            let g = self.inner.lock().unwrap_or_else(|e| e.into_inner());
+            let mut g = self.reenter(me, g);
             if let Some(x) = g.mailboxes[me][from].pop_front() {
                 return Some(x);
             }
@@ -277,6 +346,11 @@ impl<M> Coop<M> {
             match Self::choose(&mut g, None) {
                 Some(next) => {
                     let g = self.hand_over(me, next, g);
+                    drop(self.wait_turn(me, g));
+                }
+                None if g.states.iter().any(|s| *s == TState::NativeBlocked) => {
+                    // A natively blocked (rescued) thread will come back and take the baton.
+                    g.current = NOBODY;
                     drop(self.wait_turn(me, g));
                 }
                 None => {
@@ -295,13 +369,17 @@ impl<M> Coop<M> {
 
     /// The simulated thread has finished its workload (but stays alive until released).
     pub fn finish(&self, me: usize) {
-        let mut g = self.inner.lock().unwrap_or_else(|e| e.into_inner());
+        let g = self.inner.lock().unwrap_or_else(|e| e.into_inner());
+        let mut g = self.reenter(me, g);
         g.states[me] = TState::Finished;
         g.last_progress = std::time::Instant::now();
         if !g.abort {
             match Self::choose(&mut g, None) {
                 Some(next) => {
                     g = self.hand_over(me, next, g);
+                }
+                None if g.states.iter().any(|s| *s == TState::NativeBlocked) => {
+                    g.current = NOBODY;
                 }
                 None => {
                     if g.states.iter().any(|s| *s == TState::Blocked) {
@@ -326,4 +404,24 @@ impl<M> Coop<M> {
         g.exit_turn = Some(t);
         self.cvs[t].notify_all();
     }
+}
+
+/// Does the OS thread sleep in the kernel (state S or D in /proc/self/task/<tid>/stat), twice in a
+/// row 30 ms apart without having been scheduled in between?
+fn thread_sleeps(tid: i32) -> bool {
+    fn probe(tid: i32) -> Option<(char, String)> {
+        let stat = std::fs::read_to_string(format!("/proc/self/task/{tid}/stat")).ok()?;
+        let rest = &stat[stat.rfind(')')? + 1..];
+        let state = rest.trim_start().chars().next()?;
+        let sw = std::fs::read_to_string(format!("/proc/self/task/{tid}/status")).ok()?;
+        let ctx: String = sw.lines().filter(|l| l.contains("ctxt_switches")).collect::<Vec<_>>().join(";");
+        Some((state, ctx))
+    }
+    let Some((s1, c1)) = probe(tid) else { return false };
+    if s1 != 'S' && s1 != 'D' {
+        return false;
+    }
+    std::thread::sleep(std::time::Duration::from_millis(30));
+    let Some((s2, c2)) = probe(tid) else { return false };
+    (s2 == 'S' || s2 == 'D') && c1 == c2
 }
